@@ -194,13 +194,18 @@ Closure(s, S) == FoldLeft(LAMBDA acc, i : acc \cup {t \in s.pool : \E u \in acc 
 (* PlayAndRepost of block 2 = [award, bt] on the root (processUnconfirmTxs): a pending transaction that is not in the
    block is undone together with its descendants when it spends an input of the block, or when it reads or writes
    a key the block writes in another version than the block's last writer of the key - unless that writer is
-   itself pending here. (The selection locks of the outputs the undone transactions had spent are released: the
+   itself pending here - or when it read a key version that a block transaction read and overwrote. (The selection locks of the outputs the undone transactions had spent are released: the
    outputs are free again.) Block transactions that are pending are confirmed without a second verification,
    the others verified and applied. *)
 LastWriter(bt, k) == LET W == {i \in DOMAIN bt : TX[bt[i]].writes[k] # NoRd} IN IF W = {} THEN None ELSE bt[Max(W)]
-KeyConflict(s, u, bt) == \E k \in Keys : LET w == LastWriter(bt, k) IN
+KeyConflict(s, u, bt) ==
+  \/ \E k \in Keys : LET w == LastWriter(bt, k) IN
                             /\ w # None /\ w \notin s.pool
                             /\ (TX[u].writes[k] # NoRd \/ (TX[u].reads[k] # NoRd /\ TX[u].reads[k] # w))
+  (* since fix 835b00b of the repository: a block transaction read AND overwrote a key version u read - u is stale
+     whether or not that block transaction is pending here (XState.tla: Superseded) *)
+  \/ \E k \in Keys : /\ TX[u].reads[k] # NoRd
+                      /\ \E i \in DOMAIN bt : TX[bt[i]].writes[k] # NoRd /\ TX[bt[i]].reads[k] = TX[u].reads[k]
 ApplyBlock(s, bt, skip) ==
   FoldLeft(LAMBDA acc, t : IF ~acc.ok \/ t \in skip THEN acc
                            ELSE IF Valid(acc.s, t) THEN [ok |-> TRUE, s |-> Write(acc.s, t)]
